@@ -34,8 +34,15 @@ HashAt(j) ==
 \* the guard lattice once more (first body only) under an ambient environment that names every option
 NAmbient == 3 * NChainChoices * 4
 AmbientAt(j) == LET it == LatticeAt(j) IN [it EXCEPT !.fam = "ambient_env", !.in = [it.in EXCEPT !.env = it.in.env @@ Ambient]]
-Count == NLattice + NHash + NAmbient
-ItemAt(g) == IF g <= NLattice THEN LatticeAt(g) ELSE IF g <= NLattice + NHash THEN HashAt(g - NLattice) ELSE AmbientAt(g - NLattice - NHash)
+\* chain ids at which v crosses an integer width (GenTx!VEdge), full output and --signature-only
+NVw == 2 * NVWidth
+VwAt(j) ==
+  LET it == VWidthAt(1 + ((j - 1) % NVWidth))
+  IN  CItem("v_width", Cmd("sign", "transaction", PlainAcct(Mn2), IF j > NVWidth THEN <<"signature_only">> ELSE <<>>, "",
+                           ChanNo(j), [doc |-> it.in.doc]))
+Count == NLattice + NHash + NAmbient + NVw
+ItemAt(g) == IF g <= NLattice THEN LatticeAt(g) ELSE IF g <= NLattice + NHash THEN HashAt(g - NLattice)
+             ELSE IF g <= NLattice + NHash + NAmbient THEN AmbientAt(g - NLattice - NHash) ELSE VwAt(g - NLattice - NHash - NAmbient)
 VARIABLE n
 INSTANCE GenBase
 =============================================================================
